@@ -2,7 +2,7 @@
    The receiver (model of MessageReceiver.receive) refines the grammar of the whole stream for EVERY way of cutting
    the stream into reads; unbounded in stream length and number/position of cuts. *)
 From Coq Require Import NArith List.
-From SkV Require Import Bytes Framing FramingProofs SenderProofs.
+From SkV Require Import Bytes Wire Framing FramingProofs SenderProofs EndToEndProofs.
 Import ListNotations.
 Open Scope N_scope.
 
@@ -63,6 +63,22 @@ Theorem C11_sender_receiver_complete : forall max ops chunks,
   pending (snd (feed max r_init chunks)) = [].
 Proof. exact sender_receiver_complete. Qed.
 
+(* wire codec + sender + receiver: the (header, message) pairs handed to send_message are the pairs handed to
+   handle_message_received, in order ("the sequence of protocol messages a node extracts"), for every fragmentation;
+   with the sender's state machine in between and observed at any moment, a correctly decoded prefix of them. *)
+Theorem C11_messages_end_to_end : forall max hms chunks, Forall (sendable_msg max) hms -> Forall bytes_wf chunks ->
+  concat chunks = send_stream (map payload_of hms) ->
+  map dec_frame (fst (fst (feed max r_init chunks))) = map Some hms /\
+  snd (fst (feed max r_init chunks)) = None /\
+  pending (snd (feed max r_init chunks)) = [].
+Proof. exact messages_end_to_end. Qed.
+
+Theorem C11_messages_end_to_end_prefix : forall max ops hms chunks, sent_of ops = map payload_of hms ->
+  Forall (sendable_msg max) hms -> Forall bytes_wf chunks -> concat chunks = s_written (s_run ops) ->
+  snd (fst (feed max r_init chunks)) = None /\
+  exists k, map dec_frame (fst (fst (feed max r_init chunks))) = map Some (firstn k hms).
+Proof. exact messages_end_to_end_prefix. Qed.
+
 Example C11_example :
   feed 100 r_init [[77;65]; [74;73;0;0;0;3;1;2]; [3;77;65;74;73;0;0;0;2;9;8]] = ([[1;2;3];[9;8]], None, r_init).
 Proof. vm_compute. reflexivity. Qed.
@@ -79,3 +95,5 @@ Print Assumptions C11_sender_drained.
 Print Assumptions C11_sender_progress.
 Print Assumptions C11_sender_receiver_prefix.
 Print Assumptions C11_sender_receiver_complete.
+Print Assumptions C11_messages_end_to_end.
+Print Assumptions C11_messages_end_to_end_prefix.
